@@ -10,6 +10,7 @@ use crate::rooms::*;
 use crate::syncworld::params;
 use crate::world::*;
 use discret::verif::event_service::Event;
+use discret::verif::database::query_language::parameter::ParametersAdd;
 use discret::verif::security::Uid;
 use discret::verif_hooks;
 use serde_json::{json, Value};
@@ -38,6 +39,8 @@ pub enum Op {
     NestedUpdate(usize, usize, usize),
     /// a new child is attached (through `qs`) to an otherwise unchanged owner created on day 0: room, day
     NestedAttach(usize, usize),
+    /// ONE request holding a room mutation of room `r` and a new row of that room: room, entity, day
+    RoomMutationWithRow(usize, usize, usize),
 }
 
 const ENTS: [&str; 2] = ["ns.P", "ns.Q"];
@@ -62,10 +65,13 @@ pub fn alphabet() -> Vec<Op> {
     a.push(Op::RoomMutation(0));
     a.push(Op::Pull(0, 0, 1, 0));
     a.push(Op::Pull(1, 1, 0, 0));
+    a.push(Op::Pull(0, 0, 0, 0));
+    a.push(Op::Pull(0, 1, 0, 0));
     a.push(Op::NestedCreate(0, 1));
     a.push(Op::NestedUpdate(0, 0, 1));
     a.push(Op::NestedUpdate(1, 1, 0));
     a.push(Op::NestedAttach(0, 1));
+    a.push(Op::RoomMutationWithRow(0, 0, 1));
     a
 }
 
@@ -86,6 +92,27 @@ impl W18 {
         let r1 = u.create_room(0, tick(0), &[(vec![("*", true, true)], vec![1], vec![])]).await?;
         u.spread_room(&r0, 0).await;
         u.spread_room(&r1, 0).await;
+        // shared history: both devices hold a row of every entity on both days of both rooms, so that later pulls
+        // compare whole histories (not only a first-time or last-day exchange)
+        let mut k = 0;
+        for room in [&r0, &r1] {
+            for e in ENTS {
+                for d in 0..2 {
+                    k += 1;
+                    set_clock(day_clock(d) - 9000 - k);
+                    u.peers[0].mutate(&format!("mutate {{ {} {{ room_id:$r name:\"shared\" }} }}", e), Some(params(&[("r", b64(&room.id))]))).await?;
+                }
+            }
+        }
+        u.peers[0].barrier().await;
+        set_clock(day_clock(1) + 100);
+        for room in [&r0, &r1] {
+            let st = pull(&u.peers[1], &u.peers[0], room.id, PullOpts { cut_after: None, allowed: Some(vec![room.id]) }).await;
+            if !st.ok {
+                return Err(format!("baseline pull failed: {:?}", st.error));
+            }
+        }
+        u.peers[1].barrier().await;
         let subs = vec![u.peers[0].subscribe().await, u.peers[0].subscribe().await];
         Ok(W18 { u, rooms: [r0, r1], subs, serial: 0 })
     }
@@ -257,6 +284,15 @@ impl W18 {
                 set_clock(day_clock(*d) + serial as i64);
                 Ok(a.mutate("mutate { ns.P { id:$id qs:[{ name:\"attached\" }] } }", Some(params(&[("id", b64(&target[0]))]))).await.is_ok())
             }
+            Op::RoomMutationWithRow(r, e, d) => {
+                set_clock(day_clock(*d) + 2000 + serial as i64);
+                let ev = REvent::AddRight { group: 0, entity: "ns.Q".into(), own: true, all: serial % 2 == 1 };
+                let (text, mut p) = self.u.event_mutation(&self.rooms[*r], &ev);
+                let inner = text.trim_end().strip_suffix('}').ok_or("room mutation text")?.to_string();
+                p.add("rowroom", b64(&self.rooms[*r].id)).map_err(|e| e.to_string())?;
+                let text = format!("{} {} {{ room_id:$rowroom name:\"with the room mutation\" }} }}", inner, ENTS[*e]);
+                Ok(a.mutate(&text, Some(p)).await.is_ok())
+            }
             Op::Pull(r, _, _, cut) => {
                 set_clock(day_clock(1) + 5000 + serial as i64);
                 let st = pull(&self.u.peers[0], &self.u.peers[1], self.rooms[*r].id, PullOpts { cut_after: if *cut == 0 { None } else { Some(*cut) }, allowed: Some(vec![self.rooms[*r].id]) }).await;
@@ -321,6 +357,7 @@ fn op_class(o: &Op) -> &'static str {
         Op::NestedCreate(..) => "nested-create",
         Op::NestedUpdate(..) => "nested-update",
         Op::NestedAttach(..) => "nested-attach",
+        Op::RoomMutationWithRow(..) => "room-mutation-with-row",
     }
 }
 
@@ -408,7 +445,7 @@ async fn run_workload(w: &mut W18, wl: &Workload, out: &mut Outcome, verbose: bo
         out.violation(format!("workload={} clause=subscribers-disagree", wl_class), "two subscribers received different announcements", replay.clone());
     }
     for (i, o) in ops.iter().enumerate() {
-        if let Op::RoomMutation(r) = o {
+        if let Op::RoomMutation(r) | Op::RoomMutationWithRow(r, _, _) = o {
             if acked[i] {
                 for (si, (_, rooms)) in got.iter().enumerate() {
                     if !rooms.contains(&w.rooms[*r].id) {
